@@ -17,6 +17,7 @@
     statement: without the transposition the stored state is `(q^(2k))ᵀ`);
   * `gibbs_trace_one`, `gibbs_hermitian`, `gibbs_normalised_hermitian`;
   * `compute_fresh`, `compute_idempotent`, `compute_repeat`: repeated `compute()`;
+    `mps_never_truncated`: the imaginary-time chain is never cut, for every number of steps;
   * ties to the regenerated source: `coeff_is_cell`, `coeff_sum_tiling`, `guarded_term_inactive`,
     `infl_formulas_are_model`, `gibbs_ops_symmetric`, `total_imaginary_time`,
     `source_orientation`;
@@ -238,6 +239,18 @@ theorem compute_repeat (n : Int) (hn : 2 ≤ n) (m : ℕ) :
     rw [Function.iterate_succ_apply', ih, ← (compute_fresh n hn).1]
     exact gCompute_idem n _
 
+/-- **No memory cut-off in imaginary time.**  `compute_step` sums out the first MPS site once
+    the chain is longer than `kmax + 1`; Matsubara correlations are periodic in `1/T`, so that
+    would be an error, not an approximation.  `GibbsTempo` hands over `max_step = n_steps` and no
+    `max_mps_length`; with the default regenerated from the source the chain — `st + 1` sites when
+    the counter reaches `st ≤ n − 1` (checked on every correspondence case) — is never cut, for
+    EVERY number of steps.  (Fails to type-check if the default is a constant.) -/
+theorem mps_never_truncated (n st : Int) (hst : st ≤ n - 1) :
+    mps_pops (st + 1) (default_kmax n) = false := by
+  unfold mps_pops default_kmax
+  simp only [decide_eq_false_iff_not]
+  omega
+
 /-! ## 5. ties to the regenerated source -/
 
 /-- `coeffs(k)` is the η cell of the TEMPO model: the upper triangle for `k = 0`, the square
@@ -457,6 +470,8 @@ example : (∀ j a b : ℕ, star ((fun _ a b : ℕ => ((a + b : ℕ) : ℚ)) j a
 example : ((2 : ℕ) : ℚ) = (4 : ℕ) / 2 ∧ (4 : ℚ)^(2*2) = 2^(2*4) := by norm_num
 /-- `2 ≤ n` -/
 example : (2 : Int) ≤ 5 := by decide
+/-- a counter value within the run -/
+example : (3 : Int) ≤ 5 - 1 := by decide
 /-- repeated values: `[1, 1, -1]` has classes `{0, 1}` and `{2}` -/
 example : uniqIndices [(1 : Int), 1, -1] = [0, 2] ∧ uniqProj [(1 : Int), 1, -1] = [[1, 1, 0], [0, 0, 1]] := by decide
 /-- the thermal-integrand hypotheses hold jointly over ℂ: `E = Complex.exp` is a homomorphism with
